@@ -1,0 +1,25 @@
+//go:build verif
+
+// Contracts for package par, checked by /verif/govc (see /verif/DESIGN.md).
+// Comment-only: this file adds no code to the package.
+package par
+
+//@ func (*PushedAuthorizeHandler).secureChecker
+//@   requires c != nil && u != nil
+//@   ensures [C11.http-only-local] c.Config.GetRedirectSecureChecker(ctx) == nil ==> result == fosite.IsRedirectURISecure(ctx, u)
+//@   ensures [C11.http-only-local] c.Config.GetRedirectSecureChecker(ctx) != nil ==> result == call(c.Config.GetRedirectSecureChecker(ctx), ctx, u)
+
+//@ func (*PushedAuthorizeHandler).HandlePushedAuthorizeEndpointRequest
+//@   let responsible = implements(c.Config, fosite.PushedAuthorizeRequestConfigProvider) && implements(c.Storage, fosite.PARStorage) && old(ar.GetResponseTypes()).HasOneOf("token", "code", "id_token")
+//@   let prefix = cast(c.Config, fosite.PushedAuthorizeRequestConfigProvider).GetPushedAuthorizeRequestURIPrefix(ctx)
+//@   requires c != nil && ar != nil && resp != nil && ar.GetRedirectURI() != nil && ar.GetRequestForm() != nil
+//@   modifies par_exists, par_req, par_client, par_exp, stored, faults
+//@   ensures [C17.push-stores-request] err == nil && responsible ==> par_exists[resp.GetRequestURI()] && par_req[resp.GetRequestURI()] == ar && par_client[resp.GetRequestURI()] == ar.GetClient().GetID()
+//@   ensures [C17.push-validates-as-authorize] err == nil && responsible ==> (forall j int :: 0 <= j && j < len(ar.GetRequestedScopes()) ==> call(c.Config.GetScopeStrategy(ctx), ar.GetClient().GetScopes(), ar.GetRequestedScopes()[j])) && call(c.Config.GetAudienceStrategy(ctx), ar.GetClient().GetAudience(), ar.GetRequestedAudience()) == nil
+//@   ensures [C11.http-only-local] err == nil && responsible && c.Config.GetRedirectSecureChecker(ctx) == nil ==> fosite.IsRedirectURISecure(ctx, ar.GetRedirectURI())
+//@   ensures [~C17.uri-shape] err == nil && responsible ==> (exists key []byte :: len(key) == 32 && resp.GetRequestURI() == fmt.Sprintf("%s%s", prefix, b64.EncodeToString(key)))
+//@   ensures [C07.par-expiry-set] err == nil && responsible && ar.GetSession() != nil ==> ar.GetSession().GetExpiresAt(fosite.PushedAuthorizeRequestContext) == $now + cast(c.Config, fosite.PushedAuthorizeRequestConfigProvider).GetPushedAuthorizeContextLifespan(ctx)
+//@   ensures [C17.fault-refuses] faults != old(faults) ==> err != nil
+//@   ensures [C17.refusal-stores-nothing] err != nil ==> par_exists == old(par_exists)
+//@   invariant loop#1 [C17.push-validates-as-authorize] $i <= len(ar.GetRequestedScopes()) && (forall j int :: 0 <= j && j < $i ==> call(c.Config.GetScopeStrategy(ctx), client.GetScopes(), ar.GetRequestedScopes()[j]))
+//@   invariant loop#2 [C20.stored-form-whitelisted] $i <= 3 && (forall j int :: 0 <= j && j < $i && j < 2 ==> formget(ar.GetRequestForm(), j == 0 ? "client_secret" : "client_assertion") == "")
